@@ -31,6 +31,7 @@ use arrow::compute::kernels::boolean::{not, or_kleene};
 use arrow::compute::kernels::cmp::eq as arrow_eq;
 use arrow::datatypes::*;
 
+use datafusion_common::utils::{normalize_float_zero, normalize_float_zero_scalar};
 use datafusion_common::{
     DFSchema, Result, ScalarValue, assert_or_internal_err, exec_err,
 };
@@ -215,7 +216,9 @@ impl InListExpr {
             expr,
             list,
             negated,
-            Some(instantiate_static_filter(array)?),
+            // SQL equality treats `-0.0` and `+0.0` as equal, the filters compare
+            // floats by bit pattern
+            Some(instantiate_static_filter(normalize_float_zero(&array))?),
         ))
     }
 
@@ -242,7 +245,11 @@ impl InListExpr {
 
         // Try to create a static filter if all list expressions are constants
         let static_filter = match try_evaluate_constant_list(&list, schema)? {
-            Some(in_array) => Some(instantiate_static_filter(in_array)?),
+            // SQL equality treats `-0.0` and `+0.0` as equal, the filters compare
+            // floats by bit pattern
+            Some(in_array) => Some(instantiate_static_filter(normalize_float_zero(
+                &in_array,
+            ))?),
             None => None, // Non-constant expressions, fall back to dynamic evaluation
         };
 
@@ -317,7 +324,18 @@ impl PhysicalExpr for InListExpr {
 
     fn evaluate(&self, batch: &RecordBatch) -> Result<ColumnarValue> {
         let num_rows = batch.num_rows();
-        let value = self.expr.evaluate(batch)?;
+        // The static filters and Arrow's `eq` kernel compare floats by bit
+        // pattern (IEEE 754 totalOrder), which treats `-0.0` and `+0.0` as
+        // distinct. Normalize float operands so SQL semantics (`+0.0 = -0.0`)
+        // hold, as the comparison operators do. No-op for non-float types.
+        let value = match self.expr.evaluate(batch)? {
+            ColumnarValue::Array(array) => {
+                ColumnarValue::Array(normalize_float_zero(&array))
+            }
+            ColumnarValue::Scalar(scalar) => {
+                ColumnarValue::Scalar(normalize_float_zero_scalar(scalar))
+            }
+        };
         let r = match &self.static_filter {
             Some(filter) => {
                 match value {
@@ -369,6 +387,7 @@ impl PhysicalExpr for InListExpr {
                 let compare_one = |expr: &Arc<dyn PhysicalExpr>| -> Result<BooleanArray> {
                     match expr.evaluate(batch)? {
                         ColumnarValue::Array(array) => {
+                            let array = normalize_float_zero(&array);
                             if lhs_supports_arrow_eq
                                 && supports_arrow_eq(array.data_type())
                             {
@@ -388,6 +407,7 @@ impl PhysicalExpr for InListExpr {
                             }
                         }
                         ColumnarValue::Scalar(scalar) => {
+                            let scalar = normalize_float_zero_scalar(scalar);
                             // Check if scalar is null once, before the loop
                             if scalar.is_null() {
                                 // If scalar is null, all comparisons return null
